@@ -1,7 +1,7 @@
 import GorumsV.Model.ReplyLoop
 /-
   Model of correctable calls (correctable.go), the code as repaired by the C11
-  "fix:" commit: the `Correctable` object (Get / Watch / set / Done) and the loop
+  and C08 "fix:" commits: the `Correctable` object (Get / Watch / set / Done) and the loop
   of `handleCorrectableCall` (plain and server-stream variant).
 -/
 namespace GorumsV.Correctable
@@ -71,6 +71,13 @@ structure LoopSt (V E M : Type) where
 def exhausted (stream : Bool) (nErrs nReplies expected : Nat) : Bool :=
   (stream && nErrs == expected) || (!stream && nErrs + nReplies == expected)
 
+/-- what the exhaustion branch reports: `incompleteCause(ctx)` (errors.go) — the context's error when
+    the context has ended, i.e. when its end is the next event of the history (see Model/ReplyLoop) -/
+def exhaustedErr (errs : List (NodeId × E)) (nReplies : Nat) (rest : List (Arrival M E)) : CErr E :=
+  match rest with
+  | .ctxDone c :: _ => .ctx c errs nReplies
+  | _ => .incomplete errs nReplies
+
 /-- One iteration of the loop on an arrival; the exhaustion test is at the top of the loop.
     Returns the new loop state and object, and whether the loop returned. -/
 def stepArrival (qf : RepMap M → V × Int × Bool) (stream : Bool) (expected : Nat)
@@ -94,7 +101,7 @@ def run (qf : RepMap M → V × Int × Bool) (stream : Bool) (expected : Nat) :
     LoopSt V E M → Obj V E → List (Arrival M E) → List (Option (Obj V E))
   | st, o, as =>
     if exhausted stream st.errs.length st.replies.length expected then
-      [o.set st.resp st.clevel (some (.incomplete st.errs st.replies.length)) true]
+      [o.set st.resp st.clevel (some (exhaustedErr st.errs st.replies.length as)) true]
     else match as with
       | [] => []
       | a :: as =>
